@@ -110,7 +110,26 @@ void run_width(const Case &c, pbt::Ctx &ctx, Flags &fl, std::string &trace) {
         size_t a = e.below(4), b = e.below(4);
         Slot  &A = pool[a];
         Slot  &B = pool[b];
-        switch (e.below(10)) {
+        switch (e.below(c.gen2 != 0 ? 12 : 10)) {
+            case 10: { // every tag record replaced by move-assignment from a copy of itself (TagBit::operator=(TagBit &&) on live records)
+                Cache cp{static_cast<const Cache &>(*A.cache)};
+                for (SizeT i = 0; i < A.cache->Size() && i < cp.Size(); ++i) {
+                    A.cache->Storage()[i] = Memory::Move(cp.Storage()[i]);
+                }
+                fl.transfer = true;
+                trace += "move-assign-records;";
+                break;
+            }
+            case 11: { // the records moved one by one into a new array (TagBit move construction), the emptied array replaced by it
+                Cache nb;
+                for (SizeT i = 0; i < A.cache->Size(); ++i) {
+                    nb += Memory::Move(A.cache->Storage()[i]);
+                }
+                *A.cache    = Memory::Move(nb);
+                fl.transfer = true;
+                trace += "move-records-to-new-array;";
+                break;
+            }
             case 0:
             case 1: { // parse (into an empty or a non-empty cache: Parse appends, so clear first as the examples do)
                 int t = int(e.below(uint32_t(texts.size())));
